@@ -45,10 +45,13 @@ where
 
     pub(super) fn finish(&mut self, header: &sam::Header) -> io::Result<()> {
         match self {
-            Self::Sam(writer) => writer.finish(header),
-            Self::SamGz(writer) => writer.finish(header),
-            Self::Bam(writer) => writer.finish(header),
-            Self::BamRaw(writer) => writer.finish(header),
+            // The SAM and BAM writers do not buffer, but the writers they are built on here do. What is
+            // still buffered is written now, so that a failure is reported instead of being ignored
+            // when the writer is dropped.
+            Self::Sam(writer) => writer.get_mut().flush(),
+            Self::SamGz(writer) => writer.get_mut().flush(),
+            Self::Bam(writer) => writer.get_mut().flush(),
+            Self::BamRaw(writer) => writer.get_mut().flush(),
             Self::Cram(writer) => writer.finish(header),
         }
     }
